@@ -265,3 +265,72 @@ Example C09_locate_transposed_instance_anisotropic :
   locate_discrete ex_percentile (lp_rev ex_P2) (transpose ex_im1) =
     [mkOut [273 # 39; 234 # 39]%Q 39 (Some ([44 # 39; 28 # 39]%Q, 9, 39))].
 Proof. exact ex_locate_transposed_aniso. Qed.
+
+(* ------------------------------------------------------------------------------------
+   Arbitrary axis orders: np.transpose(image, axes) for ANY permutation [axes] of the
+   axes of an image with any number of axes (proofs in Proofs/Equivariance3.v).
+     permute def axes v      v taken in the order axes:  result[k] = v[axes[k]]
+                             (zperm: integer lists, qperm: rational lists)
+     axes_permuted axes im1 im2   shape im2 = zperm axes (shape im1)  and
+                             pix im2 (zperm axes p) = pix im1 p  for every index tuple p of im1's rank
+     lp_perm axes P          separation, margin, radius taken in the order axes
+     row_permuted axes a b   o_pos b = qperm axes (o_pos a), mass, signal, raw_mass identical,
+                             a single (isotropic) size identical, per-axis sizes = qperm axes (sizes a)
+   numpy .T is axes = n-1, ..., 0  ([C09_reversal_is_an_axis_order]). *)
+From TP Require Import Proofs.Equivariance3.
+
+(* (11) any axis order, refinement *)
+Theorem C09_refine_axes_permuted : forall axes P im1 im2 start,
+  Permutation axes (seq 0 (length (shape im1))) -> axes_permuted axes im1 im2 ->
+  length (lp_radius P) = length (shape im1) ->
+  row_permuted axes (refine_at P im1 start) (refine_at (lp_perm axes P) im2 (zperm axes start)).
+Proof. exact refine_at_axes. Qed.
+Print Assumptions C09_refine_axes_permuted.
+
+(* (12) any axis order, maxima + refinement composed: locate's table before the tail
+   (integer image, preprocess=False) on the image with permuted axes consists of the same
+   rows (as a multiset), every row permuted.  Holds for ANY integer image. *)
+Theorem C09_locate_discrete_axes_permuted :
+  forall (percentile : list Z -> Q),
+    (forall l l', Permutation l l' -> percentile l = percentile l') ->
+  forall axes im1 im2 P,
+    Permutation axes (seq 0 (length (shape im1))) -> axes_permuted axes im1 im2 ->
+    length (lp_sep P) = length (shape im1) -> length (lp_margin P) = length (shape im1) ->
+    length (lp_radius P) = length (shape im1) ->
+    Forall (fun s => 1 <= s) (sizes_of im1 (lp_sep P)) ->
+    exists rows, Permutation (locate_discrete percentile (lp_perm axes P) im2) rows /\
+                 Forall2 (row_permuted axes) (locate_discrete percentile P im1) rows.
+Proof. exact locate_discrete_axes. Qed.
+Print Assumptions C09_locate_discrete_axes_permuted.
+
+Theorem C09_reversal_is_an_axis_order : forall (A : Type) (def : A) (v : list A),
+  permute def (rev (seq 0 (length v))) v = rev v.
+Proof. exact permute_rev_seq. Qed.
+Print Assumptions C09_reversal_is_an_axis_order.
+
+(* the harness' np.transpose: the image tabulated in the new axis order is axes_permuted *)
+Theorem C09_transpose_axes_permuted : forall axes im,
+  Permutation axes (seq 0 (length (shape im))) ->
+  (forall p, pix im p <> 0 -> in_bounds (shape im) p) ->
+  axes_permuted axes im (transpose_axes axes im).
+Proof. exact transpose_axes_permuted. Qed.
+Print Assumptions C09_transpose_axes_permuted.
+
+(* Non-vacuity of (11), (12): an ellipsoidal blob at (4, 5, 6) in a 9x10x12 volume, diameter
+   (3, 5, 5), axes taken in the order (2, 0, 1): one feature; position and the three per-axis
+   sizes (all different) appear in the new order, mass, signal, raw_mass are unchanged *)
+Example C09_axes_premises_satisfiable :
+  Permutation ex3_axes (seq 0 (length (shape ex3_im))) /\
+  axes_permuted ex3_axes ex3_im (transpose_axes ex3_axes ex3_im) /\
+  length (lp_sep ex3_P) = length (shape ex3_im) /\ length (lp_margin ex3_P) = length (shape ex3_im) /\
+  length (lp_radius ex3_P) = length (shape ex3_im) /\
+  Forall (fun s => 1 <= s) (sizes_of ex3_im (lp_sep ex3_P)).
+Proof. exact ex3_premises. Qed.
+
+Example C09_axes_instance :
+  shape (transpose_axes ex3_axes ex3_im) = [12; 9; 10] /\
+  locate_discrete ex_percentile ex3_P ex3_im =
+    [mkOut [528 # 132; 660 # 132; 792 # 132]%Q 132 (Some ([54 # 132; 264 # 132; 366 # 132]%Q, 12, 132))] /\
+  locate_discrete ex_percentile (lp_perm ex3_axes ex3_P) (transpose_axes ex3_axes ex3_im) =
+    [mkOut [792 # 132; 528 # 132; 660 # 132]%Q 132 (Some ([366 # 132; 54 # 132; 264 # 132]%Q, 12, 132))].
+Proof. exact ex3_locate_permuted. Qed.
